@@ -186,7 +186,7 @@ def data_clause():
             '(0 <= k < final(tokens)@.len() && final(tokens)@[k].0@ == "\\""@))')
 
 
-DCOND = 'T.0@ != "\'"@ && T.0@ != "\\\\"@ && spec_should_dollar(T.1@)'
+DCOND = 'T.0@ != "\'"@ && T.0@ != "\\\\"@ && T.0@ != "`"@ && (spec_should_dollar(T.1@) || T.1@.contains(\'`\'))'
 EXIT_HINT = ('assert forall|k: int| lg.op_words.contains(k) && !old(lg).op_words.contains(k) implies in_words(data_words@, k) by {} '
              'assert forall|k: int| in_words(data_words@, k) implies 0 <= k < tokens@.len() && tokens@[k].0@ == "\\""@ by { '
              'let j = choose|j: int| 0 <= j < data_words@.len() && #[trigger] data_words@[j] as int == k; assert(tokens@[data_words@[j] as int].0@ == "\\""@); } '
@@ -210,23 +210,28 @@ def frame_inv(cond):
 split_first = Fn(S, 'split_first_substitution', ret='r', props=('C11',),
     pre_rewrites=[
         Rw('text.chars().collect()', 'vx_chars_b(text)', rule='R2', why='chars().collect() through the chars shim (a Vec holds fewer than usize::MAX elements)'),
-        Rw('chars[..i].iter().collect()', 'vx_collect(&chars, 0, i)', rule='R12', why='slice of the char vector collected into a String, through a shim'),
+        Rw('chars[..i].iter().collect()', 'vx_collect(&chars, 0, i)', rule='R12', count=0, why='slice of the char vector collected into a String, through a shim'),
         Rw('chars[i + 2..j].iter().collect()', 'vx_collect(&chars, i + 2, j)', rule='R12'),
-        Rw('chars[j + 1..].iter().collect()', 'vx_collect(&chars, j + 1, chars.len())', rule='R12'),
+        Rw('chars[i + 1..j].iter().collect()', 'vx_collect(&chars, i + 1, j)', rule='R12'),
+        Rw('chars[j + 1..].iter().collect()', 'vx_collect(&chars, j + 1, chars.len())', rule='R12', count=0),
     ],
     let_types={'i': 'usize', 'j': 'usize'},
-    hints={'before-text:let head: String': 'assert forall|n: int| 0 <= n <= j - (i + 2) implies '
-                                           '#[trigger] depth_after(text@.subrange(i + 2, j as int), n) == depth_after(after_open(text@, i as int), n) by '
-                                           '{ lemma_depth_prefix(text@.subrange(i + 2, j as int), after_open(text@, i as int), n); } '
-                                           'assert(text@ =~= text@.subrange(0, i as int) + seq![\'$\', \'(\'] + text@.subrange(i + 2, j as int) + seq![\')\'] + text@.subrange(j + 1, text@.len() as int));',
-           'hdr:while j < chars.len()|body-entry': 'assert(after_open(text@, i as int)[j - (i + 2)] == text@[j as int]);'},
+    hints={'before-text:let cmd: String = vx_collect(&chars, i + 2, j);':
+               'assert forall|n: int| 0 <= n <= j - (i + 2) implies '
+               '#[trigger] depth_after(text@.subrange(i + 2, j as int), n) == depth_after(after_open(text@, i as int), n) by '
+               '{ lemma_depth_prefix(text@.subrange(i + 2, j as int), after_open(text@, i as int), n); } '
+               'assert(text@ =~= text@.subrange(0, i as int) + seq![\'$\', \'(\'] + text@.subrange(i + 2, j as int) + seq![\')\'] + text@.subrange(j + 1, text@.len() as int));',
+           'before-text:let cmd: String = vx_collect(&chars, i + 1, j);':
+               'assert(text@ =~= text@.subrange(0, i as int) + seq![\'`\'] + text@.subrange(i + 1, j as int) + seq![\'`\'] + text@.subrange(j + 1, text@.len() as int));',
+           'loop-1-body-entry': 'assert(after_open(text@, i as int)[j - (i + 2)] == text@[j as int]);'},
     ensures=[
         ('C11.split.pieces_are_head_command_tail_of_the_first_substitution',
-         'match r { Some(p) => text@ == p.0@ + seq![\'$\', \'(\'] + p.1@ + seq![\')\'] + p.2@ '
-         '&& (forall|k: int| 0 <= k < p.0@.len() ==> !opens_at(text@, k)) '                       # it is the FIRST `$(`
-         '&& depth_after(p.1@, p.1@.len() as int) == 1 '                                          # the parentheses inside are balanced ...
-         '&& (forall|n: int| 0 <= n <= p.1@.len() ==> depth_after(p.1@, n) >= 1) '                # ... and the closing one is the matching one
-         '&& p.2@.len() < text@.len(), None => true }'),
+         'match r { Some(p) => p.2@.len() < text@.len() && (forall|k: int| 0 <= k < p.0@.len() ==> !opens_at(text@, k)) && ('
+         # `$(` form: the parentheses inside are balanced and the closing one is the matching one
+         '(text@ == p.0@ + seq![\'$\', \'(\'] + p.1@ + seq![\')\'] + p.2@ && depth_after(p.1@, p.1@.len() as int) == 1 '
+         ' && (forall|n: int| 0 <= n <= p.1@.len() ==> depth_after(p.1@, n) >= 1)) '
+         # backquote form: a non-empty command without a backquote in it
+         '|| (text@ == p.0@ + seq![\'`\'] + p.1@ + seq![\'`\'] + p.2@ && p.1@.len() > 0 && !p.1@.contains(\'`\'))), None => true }'),
     ],
     loops={
         0: Loop(invariant=[('C11.inv.split.no_opening_before', 'chars@ == text@ && chars@.len() < usize::MAX as int && i <= chars@.len() && forall|k: int| 0 <= k < i ==> !opens_at(text@, k)')],
@@ -239,6 +244,10 @@ split_first = Fn(S, 'split_first_substitution', ret='r', props=('C11',),
             ('C11.inv.split.depth', 'depth as int == depth_after(after_open(text@, i as int), j - (i + 2)) && 1 <= depth <= j - i'),
         ], ensures=[('C11.inv.split.found', 'j < chars@.len() ==> text@[j as int] == \')\' && depth_after(after_open(text@, i as int), j - (i + 2)) == 1')],
            decreases='chars@.len() - j'),
+        2: Loop(invariant=[
+            ('C11.inv.split.backquote_scan', 'chars@ == text@ && chars@.len() < usize::MAX as int && i + 1 <= j <= chars@.len() && text@[i as int] == \'`\' '
+                                             '&& (forall|q: int| i < q < j ==> text@[q] != \'`\') && (forall|k: int| 0 <= k < i ==> !opens_at(text@, k))'),
+        ], decreases='chars@.len() - j'),
     },
 )
 
@@ -292,61 +301,29 @@ dollar = Fn(S, 'do_command_substitution_for_dollar', props=('C11',),
     },
 )
 
-DCOND2 = 'T.0@ == "`"@ || ((T.0@ == "\\""@ || T.0@.len() == 0) && spec_dot_match(T.1@))'
-CUR = 'idx < tokens@.len() && tokens@ == old(tokens)@ && sep@ == tokens@[idx as int].0@ && (sep@ == "\\""@ || sep@.len() == 0) && spec_dot_match(tokens@[idx as int].1@)'
+DCOND2 = 'T.0@ == "`"@'
 dot = Fn(S, 'do_command_substitution_for_dot', props=('C11',),
-    pre_rewrites=COMMON_RW + [
-        Rw(r'let re;[^{};]*if let Ok\(x\) = Regex::new\((r"[^"]*")\) \{', r'let re = match vx_regex_new(\1) { Ok(x) => x, Err(_) => { return; } }; VXELSE', regex=True, balanced=True, rule='R6',
-           why='Regex::new(pattern) through a shim; same early return on failure'),
-        Rw(r'VXELSE[^{};]*else \{', '', regex=True, balanced=True, rule='R6'),
-        Rw(r'cap\[(\d)\]\.to_string\(\)', r'vx_s(&cap.g\1)', regex=True, rule='R6'),
-        Rw(r'&cap\[2\]', '&cap.g2', regex=True, rule='R6'),
-    ],
+    pre_rewrites=COMMON_RW,
     add_params='Tracked(lg): Tracked<&mut SubLog>',
     ghost_args={'from_line': 'Tracked(lg)', 'run_pipeline': 'Tracked(lg)'},
-    loop_kinds={2: 'value', (2, 'clone'): 'vx_clone_cap(&{})'},
-    hints={'fn-entry': 'note_pass(lg, 0);',
-           'after-call:vx_trim': 'if has_op(spec_trim(cr.stdout@)) && sep@.len() == 0 && !spec_is_assign(token@) { note_op_word(lg, idx as int); }',
-           'before-text:data_words.push(idx);': 'lemma_in_words_push(data_words@, idx);',
-           'loop-0-body-entry': 'reveal_strlit("`"); assert("`"@.len() == 1);',
-           'loop-4-body-entry': 'lemma_quote_lit();',
-           'loop-4-exit': EXIT_HINT},
+    hints={'fn-entry': 'note_pass(lg, 0);'},
     ensures=[
-        ('C11+C13+C01.dot.only_backquoted_or_embedded_backquote_words_change', frame(DCOND2.replace('T', 'old(tokens)@[k]'))),
+        # only whole words written between backquotes are rewritten here; their tag (the backquote) stays, so no later pass reads them as syntax
+        ('C11+C13+C01.dot.only_backquoted_words_change', frame(DCOND2.replace('T', 'old(tokens)@[k]'))),
         ('C11.dot.inner_command_run_once_per_planning', 'final(lg).ran - old(lg).ran <= final(lg).planned - old(lg).planned'),
-        ('C13.dot.operator_characters_of_an_output_are_data', data_clause()),
+        ('C13.dot.no_word_recorded', 'final(lg).op_words == old(lg).op_words'),
         ('C11.dot.pass_id', 'final(lg).order == old(lg).order.push(0)'),
     ],
     loops={
         0: Loop(invariant=[
-            ('C11.inv.dot.idx', 'idx == __I && tokens@ == old(tokens)@ && lg.ran - old(lg).ran <= lg.planned - old(lg).planned && lg.order == old(lg).order.push(0)'),
+            ('C11.inv.dot.idx', 'idx == __I && tokens@ == old(tokens)@ && lg.ran - old(lg).ran <= lg.planned - old(lg).planned && lg.order == old(lg).order.push(0) && lg.op_words == old(lg).op_words'),
             ('C11+C13.inv.dot.buff', 'forall|kk: int| umap(buff).contains_key(kk) ==> 0 <= kk < __I && (' + DCOND2.replace('T', 'tokens@[kk]') + ')'),
-            ('C13.inv.dot.words', words_inv('tokens@', '__I', DCOND2)),
-            ('C13.inv.dot.ops', OPS),
         ]),
-        1: Loop(invariant=[('C11.inv.dot.once', 'lg.ran - old(lg).ran <= lg.planned - old(lg).planned && lg.order == old(lg).order.push(0)'),
-                           ('C13.inv.dot.cur', CUR),
-                           ('C13.inv.dot.words_l1', words_inv('tokens@', 'idx + 1', DCOND2)),
-                           ('C13.inv.dot.ops_l1', OPS)],
-                invariant_except_break=[('C11.inv.dot.tail', 'true')], decreases='_token@.len()'),
-        2: Loop(invariant=[('C11.inv.dot.once2', 'lg.ran - old(lg).ran <= lg.planned - old(lg).planned && lg.order == old(lg).order.push(0) && (forall|q: int| 0 <= q < __V@.len() ==> (#[trigger] __V@[q]).g3@.len() < _token@.len()) '
-                                               '&& (__I > 0 ==> _tail@.len() < _token@.len())'),
-                           ('C13.inv.dot.cur2', CUR),
-                           ('C13.inv.dot.words_l2', words_inv('tokens@', 'idx + 1', DCOND2)),
-                           ('C13.inv.dot.ops_l2', OPS)]),
-        3: Loop(invariant=[
+        1: Loop(invariant=[
             ('C11+C13.inv.dot.frame', 'tokens@.len() == old(tokens)@.len() && forall|k: int| 0 <= k < tokens@.len() ==> (#[trigger] tokens@[k]).0@ == old(tokens)@[k].0@ '
                                       '&& (!(' + DCOND2.replace('T', 'old(tokens)@[k]') + ') ==> tokens@[k].1@ == old(tokens)@[k].1@)'),
             ('C11+C13.inv.dot.entries', 'forall|i: int| 0 <= i < __entries@.len() ==> (#[trigger] __entries@[i]).0 < tokens@.len() && (' + DCOND2.replace('T', 'old(tokens)@[__entries@[i].0 as int]') + ')'),
-            ('C11.inv.dot.once3', 'lg.ran - old(lg).ran <= lg.planned - old(lg).planned && lg.order == old(lg).order.push(0)'),
-            ('C13.inv.dot.words3', words_inv('old(tokens)@', 'tokens@.len()', DCOND2)),
-            ('C13.inv.dot.ops3', OPS),
-        ]),
-        4: Loop(invariant=[
-            ('C11+C13.inv.dot.frame4', frame_inv(DCOND2)),
-            ('C13.inv.dot.tagged', 'forall|j: int| 0 <= j < __I ==> tokens@[(#[trigger] data_words@[j]) as int].0@ == "\\""@'),
-            ('C13.inv.dot.words4', words_inv('old(tokens)@', 'tokens@.len()', DCOND2)),
-            ('C13.inv.dot.ops4', '(' + OPS + ') && lg.ran - old(lg).ran <= lg.planned - old(lg).planned && lg.order == old(lg).order.push(0)'),
+            ('C11.inv.dot.once3', 'lg.ran - old(lg).ran <= lg.planned - old(lg).planned && lg.order == old(lg).order.push(0) && lg.op_words == old(lg).op_words'),
         ]),
     },
 )
@@ -361,7 +338,8 @@ UNIT = Unit('U-EXP3', TEMPLATE, fns=[common.has_operator_fn(), split_first, doll
             types=[TypeItem('src/types.rs', 'struct', 'Command'), TypeItem('src/types.rs', 'struct', 'CommandLine'), TypeItem('src/types.rs', 'struct', 'CommandResult')],
             props=('C11', 'C13', 'C01', 'C05'))
 TRUSTED = common.TRUSTED_STR + common.TRUSTED_TOKEN + [
-    'regexes of the substitution passes ($(..) detection, capture of the inner command, the replace) are uninterpreted: that the output is spliced literally is NOT covered',
-    'termination of the $(..) rewrite loop is proved under the ASSUMPTION that one regex replace step removes one substitution (false when the inserted output contains $( : rescanning)',
+    'the substitution passes no longer use regexes to locate a substitution: split_first_substitution (both spellings) is verified (first `$(` with its matching `)`, or a pair of '
+    'backquotes; pieces concatenate to the text; tail shorter); only the gate should_do_dollar_command_extension stays an uninterpreted regex (it can only make the pass skip a word)',
+    'that the text appended is the command\'s stdout (trimmed) is kernel / std behaviour',
     'CommandLine::from_line and core::run_pipeline are external here (contracts in U-PLAN / U-FD)',
 ]
